@@ -14,6 +14,8 @@ CONSTANTS
   FailSet = {0}
   MaxReq = 1000000
   SharedBuf = FALSE
+  Deadl = TRUE
+  KACloseOnDone = FALSE
   MmEncodeInAdd = TRUE
   AllowSkip = TRUE
 CONSTRAINT HighWater
